@@ -35,7 +35,7 @@ Record file_case := mkFileCase {
   fc_keys : list string }.                         (* keys of the file IR *)
 
 (* bit 0: the model's entries differ from the IR's keys; bit 1: a function / class that is ignored or excluded has an entry;
-   bit 2: finding class KF_C11_1 - an excluded lambda or static method has an entry *)
+   bit 2: finding class KF_C11_1 - an excluded lambda or static method has an entry; bit 3: the model ends in fatal *)
 Definition file_code (k : file_case) : nat :=
   let ex := fun n => mem n (fc_excluded k) in
   (match file_entries (fun s => mem s (fc_names_ok k)) ex (fc_defs k) with
@@ -48,4 +48,6 @@ Definition file_code (k : file_case) : nat :=
                           | _ => false end) (fc_defs k) then 2 else 0)
   + (if existsb (fun t => match td_kind t with
                           | DLambda | DStatic _ => ex (td_name t) && mem (td_name t) (fc_keys k)
-                          | _ => false end) (fc_defs k) then 4 else 0).
+                          | _ => false end) (fc_defs k) then 4 else 0)
+  (* value 8: some declaration of the file is malformed by the specification (the model ends in the fatal diagnostic) *)
+  + (match file_entries (fun s => mem s (fc_names_ok k)) ex (fc_defs k) with FFatal => 8 | _ => 0 end).
